@@ -46,8 +46,10 @@ package vnet
 //@ uf validAddr(s string) bool
 //@ uf ipOf(s string) string
 
+//@ ghost global chLen map[mathint]mathint
 //@ func (c Chunk) UserData() (r []byte)
 //@   pure
+//@   ensures len(r) == chLen[ref(c)]
 //@ func (c Chunk) SourceAddr() (r net.Addr)
 //@   pure
 //@   ensures r != nil && addrStr[ref(r)] == chSrc[ref(c)] && addrNet[ref(r)] == chNet[ref(c)] && validAddr(chSrc[ref(c)])
@@ -193,6 +195,69 @@ package vnet
 //@   ensures [nomapping] (forall k string :: {k in n.outboundMap} (k in n.outboundMap) ==> atlock(k in n.outboundMap) && n.outboundMap[k] == atlock(n.outboundMap[k])) &&
 //@            (forall k string :: {k in n.inboundMap} (k in n.inboundMap) ==> atlock(k in n.inboundMap) && n.inboundMap[k] == atlock(n.inboundMap[k])) &&
 //@            n.udpPortCounter == atlock(n.udpPortCounter)
+
+// ---- chunk queue (C14, C15, C01): a monitor; ghost numbering of everything ever pushed.  item[k] / itag[k]: data word and
+// ---- dynamic type of the k-th pushed chunk; the queue holds items head..tail-1 in order.  Role `consumer`: the one
+// ---- goroutine that pops from this queue (Router.processChunks, DelayFilter.Run, TokenBucketFilter.run); between its
+// ---- accesses other goroutines only push.
+//@ monitor chunkQueue mutex: chunks, currentBytes
+//@ ghost chunkQueue head mathint
+//@ ghost chunkQueue tail mathint
+//@ ghost chunkQueue item map[mathint]mathint
+//@ ghost chunkQueue itag map[mathint]mathint
+//@ invariant (q *chunkQueue) seq: 0 <= q.head && q.head <= q.tail && len(q.chunks) == q.tail - q.head &&
+//@      (forall j mathint :: {q.item[j]} q.head <= j && j < q.tail ==> q.chunks[j - q.head] != nil && ref(q.chunks[j - q.head]) == q.item[j] && tag(q.chunks[j - q.head]) == q.itag[j])
+//@ rely (q *chunkQueue) consumer.grow: q.head == old(q.head) && q.tail >= old(q.tail) &&
+//@      (forall k mathint :: {q.item[k]} k < old(q.tail) ==> q.item[k] == old(q.item[k]) && q.itag[k] == old(q.itag[k]))
+
+//@ ghost global lastPushed mathint
+//@ func (q *chunkQueue) push(c Chunk) (ok bool)
+//@   requires c != nil
+//@   modifies lastPushed
+//@   ensures [arg] lastPushed == ref(c)
+//@   ghost at return: lastPushed = ref(c)
+//@   ensures [pushed] ok ==> q.tail == atlock(q.tail) + 1 && q.item[atlock(q.tail)] == ref(c) && q.itag[atlock(q.tail)] == tag(c)
+//@   ensures [dropped] !ok ==> q.tail == atlock(q.tail)
+//@   ensures [full] !ok ==> (q.maxSize > 0 && atlock(q.tail - q.head) >= q.maxSize) || (q.maxBytes > 0 && atlock(q.currentBytes) + chLen[ref(c)] >= q.maxBytes)
+//@   ensures [rest] q.head == atlock(q.head) && (forall k mathint :: {q.item[k]} k < atlock(q.tail) ==> q.item[k] == atlock(q.item[k]) && q.itag[k] == atlock(q.itag[k]))
+//@   ghost at unlock when len(q.chunks) == atlock(len(q.chunks)) + 1: q.item[q.tail] = ref(c); q.itag[q.tail] = tag(c); q.tail = q.tail + 1
+
+//@ func (q *chunkQueue) pop() (c Chunk, ok bool)
+//@   role consumer
+//@   ensures [exact] ok == (atlock(q.tail) > atlock(q.head))
+//@   ensures [some] ok ==> c != nil && ref(c) == atlock(q.item[q.head]) && tag(c) == atlock(q.itag[q.head]) && q.head == atlock(q.head) + 1
+//@   ensures [none] !ok ==> c == nil && q.head == atlock(q.head)
+//@   ensures [view] atlock(q.head) == old(q.head) && atlock(q.tail) >= old(q.tail)
+//@   ensures [rest] q.tail == atlock(q.tail) && (forall k mathint :: {q.item[k]} q.item[k] == atlock(q.item[k]) && q.itag[k] == atlock(q.itag[k]))
+//@   ghost at unlock when len(q.chunks) == atlock(len(q.chunks)) - 1: q.head = q.head + 1
+
+//@ func (q *chunkQueue) peek() (c Chunk)
+//@   ensures [some] c != nil ==> atlock(q.tail) > atlock(q.head) && ref(c) == atlock(q.item[q.head]) && tag(c) == atlock(q.itag[q.head])
+//@   ensures [none] c == nil ==> atlock(q.tail) == atlock(q.head)
+//@   ensures [rest] q.head == atlock(q.head) && q.tail == atlock(q.tail) && (forall k mathint :: {q.item[k]} q.item[k] == atlock(q.item[k]) && q.itag[k] == atlock(q.itag[k]))
+
+// ---- delay filter (C14).  A queued item is a timedChunk value (boxed in the Chunk interface): its deadline is the arrival
+// ---- time plus the delay; Run forwards the items of the queue in queue order, each exactly once, and only after a timer
+// ---- tick later than the item's deadline (fwdTick: the tick that released the k-th forwarded chunk).
+//@ ghost global fwdTick map[mathint]mathint
+//@ func (f *DelayFilter) onInboundChunk(c Chunk)
+//@   requires f.queue != nil && c != nil
+//@   modifies clock, lastPushed
+//@   ensures [item] box(lastPushed, timedChunk).Chunk == c && box(lastPushed, timedChunk).deadline == clock + f.delay && clock >= old(clock)
+
+//@ ghost global fwdItem map[mathint]mathint
+//@ ghost global fwdIdx map[mathint]mathint
+//@ pure dfLog(k mathint, nic mathint, idx mathint) bool = fwdNIC[k] == nic && fwdIdx[k] == idx &&
+//@        fwdChunk[k] == ref(box(fwdItem[k], timedChunk).Chunk) && box(fwdItem[k], timedChunk).deadline < fwdTick[k]
+//@ func (f *DelayFilter) Run(ctx context.Context)
+//@   role consumer
+//@   requires ctx != nil && f.queue != nil && f.NIC != nil
+//@   modifies fwdN, fwdNIC, fwdChunk, fwdTick, fwdItem, fwdIdx, lastUntil
+//@   ensures [fifo] f.queue.head - old(f.queue.head) == fwdN - old(fwdN) && fwdN >= old(fwdN) &&
+//@        (forall k mathint :: {fwdNIC[k]} old(fwdN) <= k && k < fwdN ==> dfLog(k, ref(f.NIC), old(f.queue.head) + k - old(fwdN)))
+//@   loop 1 invariant [fifo] timer != nil && timer.C != nil && f.queue.head - old(f.queue.head) == fwdN - old(fwdN) && fwdN >= old(fwdN) &&
+//@        (forall k mathint :: {fwdNIC[k]} old(fwdN) <= k && k < fwdN ==> dfLog(k, ref(f.NIC), old(f.queue.head) + k - old(fwdN)))
+//@   ghost after pop#1: assert [popped] result$1 && ref(next) == ref(result$0) && tag(result$0) == tagof(timedChunk); fwdIdx[fwdN] = f.queue.head - 1; fwdItem[fwdN] = ref(next); fwdTick[fwdN] = now
 
 // ---- address assignment (C13)
 //@ axiom ip4Inj: forall a, b, c, d, e, f, g, h mathint :: {ip4str(a, b, c, d), ip4str(e, f, g, h)} ip4str(a, b, c, d) == ip4str(e, f, g, h) ==> a == e && b == f && c == g && d == h
@@ -477,7 +542,7 @@ package vnet
 //@ field TokenBucketFilter log immutable
 //@ field DelayFilter NIC immutable
 //@ field DelayFilter delay immutable
-//@ field DelayFilter push immutable
+//@ field DelayFilter push openchan
 //@ field DelayFilter queue immutable
 //@ field LossFilter NIC immutable
 //@ field LossFilter chance immutable
